@@ -81,7 +81,13 @@ func discharge(frs []*FuncResult, timeout time.Duration, coverToo bool) []*OblRe
 				if o.Kind == "lemma" {
 					to = 4 * timeout // pure arithmetic lemmas: few, and cvc5 needs a few seconds for some
 				}
-				r := Solve(script, to, false)
+				var r SolverResult
+				if o.Cover {
+					// vacuity probe: one solver, short budget; anything but `unsat` means "not provably vacuous"
+					r = SolveOne(script, 2*time.Second)
+				} else {
+					r = Solve(script, to, false)
+				}
 				ok := r.Status == "unsat"
 				if o.Cover {
 					ok = r.Status != "unsat" // sat or unknown: not provably vacuous
